@@ -528,5 +528,5 @@ pub(crate) mod verif_responder {
     //@ harness c02_leaf_ietf_1028 tier=quick shape="IETF request packet of 1028 bytes"
     c02_leaf!(c02_leaf_ietf_1028, 1028, Version::RfcDraft13);
     //@ harness c02_leaf_classic tier=quick shape="classic: leaf is the 64-byte nonce"
-    c02_leaf!(c02_leaf_classic, 64, Version::Google);
+    c02_leaf!(c02_leaf_classic, 160, Version::Google);
 }
